@@ -1,5 +1,6 @@
 import DriverLib.Util
 import PytmeModel.Model.C17
+import PytmeModel.Model.C17Scores
 open Lean Drv Pm Pm.C17
 namespace Drv.C17
 
@@ -127,6 +128,111 @@ def getPoints (a : Json) (k : String) : Except String (List (V3 Float)) := do
 
 def jPoints (l : List (V3 Float)) : Json := jList (l.map (fun p => jList [jFloatX p.x, jFloatX p.y, jFloatX p.z]))
 
+
+/-! ### score formulas over `Rat` (inputs are integers; replies are exact fractions `[num, den]`) -/
+
+def jRat (q : Rat) : Json := jList [jInt q.num, jNat q.den]
+def jRats (l : List Rat) : Json := jList (l.map jRat)
+
+/-- row-major integer array as a lookup function (only ever read inside the volume) -/
+def tgtFn (shape : List Nat) (data : Array Int) : List Int → Rat :=
+  fun p => ((data.getD (flatIdx shape (p.map Int.toNat)) 0 : Int) : Rat)
+
+def tgtFnI (shape : List Nat) (data : Array Int) : List Int → Int :=
+  fun p => data.getD (flatIdx shape (p.map Int.toNat)) 0
+
+def ratsOf (l : List Int) : List Rat := l.map (fun (a : Int) => (a : Rat))
+
+def getTarget (a : Json) (k : String) : Except String (Array Int) := do pure (← getIntList a k).toArray
+
+def epsD : Rat := 1 / 4503599627370496
+
+def ratioPts (P : List (List Int)) (den : Nat) : List (List (Int × Nat)) := P.map (fun p => p.map (fun x => (x, den)))
+
+def scoreOp (name : String) (a : Json) : R := do
+  let shape ← getNatList a "shape"
+  let data ← getTarget a "target"
+  if data.size ≠ prodL shape then throw "BadArg:target"
+  let P ← getIntListList a "P"
+  let wI ← getIntList a "w"
+  let w := ratsOf wI
+  let sign : Rat := scoreSign 1 (← getBool a "negate")
+  let T := tgtFn shape data
+  let v := sampleAll 0 shape T P
+  match name with
+  | "cc" => pure (Json.mkObj [("values", jRats v), ("score", jRat (ccScore 0 1 sign v w))])
+  | "ncc" =>
+      let q := nccParts 0 v w
+      pure (Json.mkObj [("values", jRats v), ("guard", jBool (nccGuard 0 v w)), ("num", jRat q.1), ("densq", jRat q.2),
+        ("sign", jRat sign)])
+  | "nccmean" =>
+      let cells := (allIdx shape).map (fun i => i.map (fun (k : Nat) => (k : Int)))
+      let T' := centreTarget 0 (1 / (prodL shape : Rat)) cells T
+      let w' := centreWeights 0 (1 / (w.length : Rat)) w
+      let v' := sampleAll 0 shape T' P
+      let q := nccParts 0 v' w'
+      pure (Json.mkObj [("values", jRats v'), ("weights", jRats w'), ("guard", jBool (nccGuard 0 v' w')),
+        ("num", jRat q.1), ("densq", jRat q.2), ("sign", jRat sign)])
+  | "laplace" =>
+      let P0 ← getIntListList a "P0"
+      let w' := laplaceWeights 0 shape.length P0 w
+      let v' := sampleAll 0 shape (laplaceTarget 0 shape T) P
+      pure (Json.mkObj [("values", jRats v'), ("weights", jRats w'), ("score", jRat (ccScore 0 1 sign v' w'))])
+  | "plsq" => pure (Json.mkObj [("values", jRats v), ("score", jRat (plsq 0 v w * sign))])
+  | "mi" =>
+      pure (Json.mkObj [("values", jRats v), ("score", jRat (miOf 0 epsD (fun n => (n : Rat)) v w * sign)),
+        ("bins", jNatss [v.map (binOf (fun n => (n : Rat)) (listMin 0 v) (listMax 0 v)),
+          w.map (binOf (fun n => (n : Rat)) (listMin 0 w) (listMax 0 w))])])
+  | "mcc" =>
+      let mdata ← getTarget a "mask"
+      if mdata.size ≠ prodL shape then throw "BadArg:mask"
+      let den ← getNat a "den"
+      if den = 0 then throw "BadArg:den"
+      let Pm ← getIntListList a "Pm"
+      let q := mccParts 0 epsD shape T (tgtFn shape mdata) (ratioPts P den) (ratioPts Pm den) w
+      pure (Json.mkObj [("num", jRat q.1), ("d1", jRat q.2.1), ("d2", jRat q.2.2), ("sign", jRat sign)])
+  | "envelope" =>
+      let thr : Rat := mkRat (← getInt a "thrNum") (← getNat a "thrDen")
+      let code : List Int → Int := fun p => envCode thr (T p)
+      let codes := (allIdx shape).map (fun i => code (i.map (fun (k : Nat) => (k : Int))))
+      let present := cnt (-1) codes
+      let absent := cnt 1 codes
+      let vv := sampleAll 0 shape code P
+      let q := envelopeParts present absent vv
+      pure (Json.mkObj [("values", jInts vv), ("present", jInt present), ("absent", jInt absent),
+        ("num", jInt q.1), ("den", jInt q.2), ("sign", jRat sign)])
+  | _ => throw "BadArg:score"
+
+def pointsOp (name : String) (a : Json) : R := do
+  let A ← getIntListList a "A"
+  let B ← getIntListList a "B"
+  let sign : Rat := scoreSign 1 (← getBool a "negate")
+  match name with
+  | "chamfer" =>
+      match B with
+      | [] => throw "BadArg:empty"
+      | q0 :: qs => pure (Json.mkObj [("sq", jInts (chamferSqs 0 A q0 qs)), ("sign", jRat sign)])
+  | "nvs" =>
+      let q := nvsParts (0 : Int) A B
+      pure (Json.mkObj [("num", jInt q.1), ("densq", jInt q.2.1), ("count", jNat q.2.2), ("sign", jRat sign)])
+  | _ => throw "BadArg:score"
+
+def flcOp (a : Json) : R := do
+  let shape ← getNatList a "shape"
+  let tshape ← getNatList a "targetShape"
+  let g ← getTarget a "template"
+  let m ← getTarget a "mask"
+  let f ← getTarget a "target"
+  let v ← getIntList a "v"
+  if g.size ≠ prodL shape ∨ m.size ≠ prodL shape ∨ f.size ≠ prodL tshape ∨ v.length ≠ shape.length
+      ∨ shape.length ≠ tshape.length then throw "BadArg:shape"
+  let gf : List Nat → Rat := fun i => ((g.getD (flatIdx shape i) 0 : Int) : Rat)
+  let mf : List Nat → Rat := fun i => ((m.getD (flatIdx shape i) 0 : Int) : Rat)
+  let q := flcOf (0 : Rat) shape tshape gf mf (tgtFn tshape f) v
+  let sign : Rat := scoreSign 1 (← getBool a "negate")
+  pure (Json.mkObj [("num", jRat q.1), ("vg", jRat q.2.1), ("vf", jRat q.2.2.1), ("n", jRat q.2.2.2),
+    ("sign", jRat sign)])
+
 def handle (op : String) (a : Json) : Option R :=
   match op with
   | "c17.formatPose" => some do
@@ -183,5 +289,16 @@ def handle (op : String) (a : Json) : Option R :=
       let pts ← getPoints a "points"
       if pts.length = 0 then throw "BadArg:empty"
       pure (jPoints (rigidCoords 0.0 (1.0 / pts.length.toFloat) R t pts))
+  | "c17.score.cc" => some (scoreOp "cc" a)
+  | "c17.score.ncc" => some (scoreOp "ncc" a)
+  | "c17.score.nccmean" => some (scoreOp "nccmean" a)
+  | "c17.score.laplace" => some (scoreOp "laplace" a)
+  | "c17.score.plsq" => some (scoreOp "plsq" a)
+  | "c17.score.mi" => some (scoreOp "mi" a)
+  | "c17.score.mcc" => some (scoreOp "mcc" a)
+  | "c17.score.envelope" => some (scoreOp "envelope" a)
+  | "c17.score.chamfer" => some (pointsOp "chamfer" a)
+  | "c17.score.nvs" => some (pointsOp "nvs" a)
+  | "c17.score.flc" => some (flcOp a)
   | _ => none
 end Drv.C17
